@@ -325,6 +325,27 @@ Definition c17_cisnan (re im : fl) : bool := c17_isnan re || c17_isnan im.
 Definition c17_cisinf (re im : fl) : bool := c17_isinf re || c17_isinf im.
 Definition c17_cisfinite (re im : fl) : bool := c17_isfinite re && c17_isfinite im.
 
+(* FieldVector<std::complex<K>,n> (fvector.hh loops over math.hh's complex overloads): out |= isNaN(b[i]) etc. *)
+Definition c17_vcisnan (v : list (fl * fl)) : bool := fold_left (fun out x => out || c17_cisnan (fst x) (snd x)) v false.
+Definition c17_vcisinf (v : list (fl * fl)) : bool := fold_left (fun out x => out || c17_cisinf (fst x) (snd x)) v false.
+Definition c17_vcisfinite (v : list (fl * fl)) : bool := fold_left (fun out x => out && c17_cisfinite (fst x) (snd x)) v true.
+(* isUnordered(FieldVector<K,1> b, FieldVector<K,1> c) = isUnordered(b[0], c[0]) *)
+Definition c17_visunordered1 (b c : fl) : bool := c17_isunordered b c.
+
+(* FloatCmpOps<T, cstyle_, rstyle_>: the object is (cstyle_, rstyle_, epsilon_); every member forwards exactly these *)
+Record c17_ops := C17_Ops { c17_ops_cstyle : c17_cstyle; c17_ops_rstyle : c17_rstyle; c17_ops_eps : fl }.
+Definition c17_ops_set_eps (o : c17_ops) (e : fl) : c17_ops := C17_Ops (c17_ops_cstyle o) (c17_ops_rstyle o) e.   (* epsilon(e) *)
+Definition c17_ops_eq (o : c17_ops) a b := c17_eq (c17_ops_cstyle o) (c17_ops_eps o) a b.
+Definition c17_ops_ne (o : c17_ops) a b := c17_ne (c17_ops_cstyle o) (c17_ops_eps o) a b.
+Definition c17_ops_gt (o : c17_ops) a b := c17_gt (c17_ops_cstyle o) (c17_ops_eps o) a b.
+Definition c17_ops_lt (o : c17_ops) a b := c17_lt (c17_ops_cstyle o) (c17_ops_eps o) a b.
+Definition c17_ops_ge (o : c17_ops) a b := c17_ge (c17_ops_cstyle o) (c17_ops_eps o) a b.
+Definition c17_ops_le (o : c17_ops) a b := c17_le (c17_ops_cstyle o) (c17_ops_eps o) a b.
+Definition c17_ops_round (o : c17_ops) (t : c17_ity) (v : fl) : c17_ires :=
+  c17_round_fix (c17_ops_rstyle o) t (c17_ops_cstyle o) (c17_ops_eps o) v.
+Definition c17_ops_trunc (o : c17_ops) (t : c17_ity) (v : fl) : c17_ires :=
+  c17_trunc_fix (c17_ops_rstyle o) t (c17_ops_cstyle o) (c17_ops_eps o) v.
+
 (* bit patterns <-> values (interchange format of total width w = sign + (w-prec) exponent bits + prec-1) *)
 Definition c17_of_bits (w x : Z) : fl :=
   let mw := prec - 1 in
